@@ -6,7 +6,10 @@ import xml.etree.ElementTree as ET
 
 import numpy as np
 
+from hypothesis import strategies as st
+
 from vlib.run import Result, Sub
+from vlib.gen import docs
 from vlib.refsvg import render, gradient as G
 from vlib.props import rendercmp
 from vlib import c06_gen
@@ -31,7 +34,12 @@ RULE = (
     "gradient element of the output has no href, only plain numbers in its geometry attributes, a parsable "
     "gradientTransform, no style attribute and its own stops. Non-trivial = some gradient-filled shape of the source has "
     ">= 8 compared interior points over which its gradient colour varies by > 16/255 and (CTM != identity or "
-    "objectBoundingBox units or an href chain); distinct = distinct source text."
+    "objectBoundingBox units or an href chain); distinct = distinct source text. Sub-check 'api': the unit step "
+    "'bounding-box units -> user space' through the public method gradient.as_user_space_units(bbox, inplace) on "
+    "gradients parsed with from_element (drawn attributes, bbox, viewBox; copying and in-place form; optionally after "
+    "an earlier call for another shape): the result's gradientTransform must equal 'bounding-box matrix after "
+    "gradientTransform' (own matrix arithmetic, 1e-9 relative) so that every gradient-space point keeps its place, all "
+    "other fields are unchanged, and the copying form leaves the receiver untouched; non-trivial = objectBoundingBox units."
 )
 ASSUMPTIONS = [
     "vlib.refsvg.gradient implements SVG 1.1 paint servers (self-tested on hand-computed cases by ./check --setup); userSpaceOnUse percentages refer to the root viewBox (no nested svg is generated)",
@@ -408,6 +416,88 @@ def _strategy(ctx):
     return c06_gen.document()
 
 
+# ------------------------------------------------------------------ the unit step "bounding-box units -> user space" through the public API
+
+
+@st.composite
+def api_case(draw):
+    kind = draw(st.sampled_from(["linearGradient", "radialGradient"]))
+    a = {"id": "g"}
+    num = st.sampled_from(["0", "0.25", "0.5", "1", "-0.2", "30%", "75%", "120%", "0.8"])
+    names = ["x1", "y1", "x2", "y2"] if kind == "linearGradient" else ["cx", "cy", "r", "fx", "fy"]
+    for nm in names:
+        if draw(st.integers(0, 2)):
+            a[nm] = draw(num) if nm != "r" else draw(st.sampled_from(["0.5", "0.3", "70%", "1"]))
+    units = draw(st.sampled_from(["objectBoundingBox", "objectBoundingBox", None, "userSpaceOnUse"]))
+    if units:
+        a["gradientUnits"] = units
+    if draw(st.integers(0, 3)):
+        a["gradientTransform"] = draw(docs.transform_list(docs.Box(0.0, 0.0, 1.0, 1.0)))
+    if draw(st.booleans()):
+        a["spreadMethod"] = draw(st.sampled_from(["pad", "reflect", "repeat"]))
+    q = st.integers(-400, 400).map(lambda v: v / 4.0)
+    bbox = [draw(q), draw(q), draw(st.integers(1, 600)) / 4.0, draw(st.integers(1, 600)) / 4.0]
+    vb = [draw(q), draw(q), draw(st.integers(8, 800)) / 2.0, draw(st.integers(8, 800)) / 2.0]
+    return {"tag": kind, "attrs": a, "bbox": bbox, "viewbox": vb, "inplace": draw(st.booleans()), "twice": draw(st.booleans())}
+
+
+def check_api(case) -> Result:
+    """gradient.as_user_space_units(bbox): the returned gradient must map gradient space to user space exactly as
+    'bounding-box matrix after gradientTransform' does (own arithmetic), keep every other field, and - in the copying
+    form - leave the receiver as it was (so that the same gradient can be turned for the next shape)."""
+    from lxml import etree
+    from picosvg.geometric_types import Rect
+    from picosvg.svg_types import SVGLinearGradient, SVGRadialGradient
+    import dataclasses
+
+    r = Result()
+    a = case["attrs"]
+    cls = SVGLinearGradient if case["tag"] == "linearGradient" else SVGRadialGradient
+    el = etree.Element(case["tag"], {k: str(v) for k, v in a.items()})
+    vb = Rect(*case["viewbox"])
+    bbox = Rect(*case["bbox"])
+    units = a.get("gradientUnits", "objectBoundingBox")
+    r.classes = (case["tag"], "units:" + units, "inplace" if case["inplace"] else "copy", "gradientTransform" if "gradientTransform" in a else "no-gradientTransform") + (("second-shape",) if case["twice"] else ())
+    try:
+        g = cls.from_element(el, vb)
+        pristine = cls.from_element(el, vb)
+        if case["twice"] and not case["inplace"]:
+            g.as_user_space_units(Rect(bbox.x + 7, bbox.y - 3, bbox.w * 2, bbox.h / 2))  # an earlier shape using the same gradient
+        got = g.as_user_space_units(bbox, inplace=case["inplace"])
+    except Exception as e:
+        r.rejected = f"api:{type(e).__name__}"
+        return r
+    gt = render.parse_transform(a.get("gradientTransform"))
+    want = render.mat_mul((bbox.w, 0.0, 0.0, bbox.h, bbox.x, bbox.y), gt) if units == "objectBoundingBox" else gt
+    m = tuple(got.gradientTransform)
+    pts = [(0.0, 0.0), (1.0, 0.0), (0.0, 1.0), (0.37, -0.81)]
+    scale = max(1.0, max(abs(v) for v in want))
+    for px, py in pts:
+        wx, wy = want[0] * px + want[2] * py + want[4], want[1] * px + want[3] * py + want[5]
+        gx, gy = m[0] * px + m[2] * py + m[4], m[1] * px + m[3] * py + m[5]
+        if abs(wx - gx) > 1e-9 * scale or abs(wy - gy) > 1e-9 * scale:
+            r.bad("api-matrix", f"{case['tag']} {a} .as_user_space_units({case['bbox']}, inplace={case['inplace']}) has gradientTransform {tuple(round(v, 6) for v in m)}; gradient-space point ({px},{py}) must land on ({wx:.6g},{wy:.6g}) (bounding-box matrix after gradientTransform) but lands on ({gx:.6g},{gy:.6g})")
+            break
+    if got.gradientUnits != "userSpaceOnUse":
+        r.bad("api-units", f"result is labelled gradientUnits={got.gradientUnits}")
+    for f in dataclasses.fields(got):
+        if f.name in ("gradientTransform", "gradientUnits"):
+            continue
+        if getattr(got, f.name) != getattr(pristine, f.name):
+            r.bad("api-field-changed", f"field {f.name} changed from {getattr(pristine, f.name)!r} to {getattr(got, f.name)!r}")
+    if case["inplace"]:
+        if got is not g:
+            r.bad("api-inplace-identity", "the in-place form did not return the receiver")
+    else:
+        if got is g:
+            r.bad("api-copy-identity", "the copying form returned the receiver itself")
+        if g != pristine:
+            r.bad("api-receiver-modified", f"the copying form modified its receiver: {g} (was {pristine})")
+    r.nontrivial = units == "objectBoundingBox"
+    return r
+
+
 SUBCHECKS = {
     "doc": Sub("doc", check_doc, strategy=_strategy, examples={"quick": 500, "thorough": 1500}, describe=lambda c: c["svg"]),
+    "api": Sub("api", check_api, strategy=lambda ctx: api_case(), examples={"quick": 400, "thorough": 5000}),
 }
